@@ -106,6 +106,7 @@ VERDICT = {
     'C14': 'DECIDED at hook level',
     'C15': 'PARTIAL: format value -> Val mappers, include hook',
     'C16': 'PARTIAL, function level: cache coherence (op cache, value cache, shape cache, out locks)',
+    'C17': 'PARTIAL, narrow: run-time error position plumbing (handlers, VM::run, VIA call sites, translator pairing)',
     'C18': 'PARTIAL: env tuple, selector miss diagnostics, dispatch',
     'C20': 'PARTIAL, narrow: position kernel',
 }
